@@ -62,14 +62,62 @@ Definition is_ascii_ws (a : ascii) : bool :=
   let n := N_of_ascii a in
   (N.eqb n 32 || N.eqb n 9 || N.eqb n 10 || N.eqb n 11 || N.eqb n 12 || N.eqb n 13)%bool.
 
-Fixpoint trim_start (s : string) : string :=
-  match s with
-  | EmptyString => EmptyString
-  | String a r => if is_ascii_ws a then trim_start r else s
+(* Rust str::trim removes Unicode White_Space: ASCII 9-13 and 32, and in UTF-8
+   U+0085 (C2 85), U+00A0 (C2 A0), U+1680 (E1 9A 80), U+2000..U+200A (E2 80 80..8A), U+2028/2029 (E2 80 A8/A9),
+   U+202F (E2 80 AF), U+205F (E2 81 9F), U+3000 (E3 80 80).  [ws_len3 a b c] etc. recognise one such character
+   given its bytes in reading order. *)
+Definition byte_is (a : ascii) (n : N) : bool := N.eqb (N_of_ascii a) n.
+Definition ws2 (a b : ascii) : bool := (byte_is a 194 && (byte_is b 133 || byte_is b 160))%bool.
+Definition ws3 (a b c : ascii) : bool :=
+  ((byte_is a 225 && byte_is b 154 && byte_is c 128)
+   || (byte_is a 226 && byte_is b 128 && (let n := N_of_ascii c in (N.leb 128 n && N.leb n 138) || N.eqb n 168 || N.eqb n 169 || N.eqb n 175))
+   || (byte_is a 226 && byte_is b 129 && byte_is c 159)
+   || (byte_is a 227 && byte_is b 128 && byte_is c 128))%bool.
+
+Fixpoint trim_start_fuel (fuel : nat) (s : string) : string :=
+  match fuel with
+  | O => s
+  | S f =>
+      match s with
+      | EmptyString => EmptyString
+      | String a r =>
+          if is_ascii_ws a then trim_start_fuel f r
+          else match r with
+               | String b r2 =>
+                   if ws2 a b then trim_start_fuel f r2
+                   else match r2 with
+                        | String c r3 => if ws3 a b c then trim_start_fuel f r3 else s
+                        | EmptyString => s
+                        end
+               | EmptyString => s
+               end
+      end
   end.
-(* Rust str::trim for inputs whose white space is ASCII (non-ASCII White_Space code points are
-   not modelled; generators never produce them; named in the trusted base). *)
-Definition trim (s : string) : string := rev_string (trim_start (rev_string (trim_start s))).
+Definition trim_start (s : string) : string := trim_start_fuel (S (String.length s)) s.
+(* the same on the reversed string: the bytes of a character arrive last-first *)
+Fixpoint trim_start_rev_fuel (fuel : nat) (s : string) : string :=
+  match fuel with
+  | O => s
+  | S f =>
+      match s with
+      | EmptyString => EmptyString
+      | String a r =>
+          if is_ascii_ws a then trim_start_rev_fuel f r
+          else match r with
+               | String b r2 =>
+                   if ws2 b a then trim_start_rev_fuel f r2
+                   else match r2 with
+                        | String c r3 => if ws3 c b a then trim_start_rev_fuel f r3 else s
+                        | EmptyString => s
+                        end
+               | EmptyString => s
+               end
+      end
+  end.
+Definition trim (s : string) : string :=
+  let t := trim_start s in
+  let r := rev_string t in
+  rev_string (trim_start_rev_fuel (S (String.length r)) r).
 
 Definition to_lower_ascii_char (a : ascii) : ascii :=
   let n := N_of_ascii a in
